@@ -88,6 +88,34 @@ CHECKS = {
         "technique": "systematic fault enumeration over generated life-cycle histories + property-based testing with injected faults; descriptor ledger oracle",
         "design_ref": "DESIGN.md section 3, harness stor, C16",
     },
+    "C17": {
+        "level": "exploration",
+        "text": "The three simulated cameras are made through the real driver table and used through the HAL on the real platform.c running on "
+                "the deterministic scheduler (exposure sleeps cost no real time). Generated configurations (binning 1/2/4/8 and invalid values, all "
+                "sample types, shapes incl. odd sizes, 0 and values beyond 8192/binning, offsets, exposures, trigger enable) and "
+                "set/start/get_frame/stop/set sequences are checked against a model of the reported shape, strides and read-back values; every frame "
+                "call gets an exact-size heap buffer; the whole camera code runs under AddressSanitizer plus UBSan alignment/bounds, so any internal "
+                "buffer overrun or misaligned vector access aborts the case and is minimised by delta debugging.",
+        "note": "Rendered (full-resolution) images are kept at <= 8 Ki pixels, rarely 64 Ki / 1 Mi, for throughput; configuration changes happen "
+                "between runs and never while another caller is inside a frame call (it sized its buffer for the old shape). Under-fill is only "
+                "judged for the random camera (last 8 image bytes must be written).",
+        "technique": "property-based testing (rapidcheck tapes on a deterministic scheduler) against a shape/read-back model under ASan+UBSan",
+        "design_ref": "DESIGN.md section 3, harness simcam, C17",
+    },
+    "C18": {
+        "level": "exploration",
+        "text": "Caller A (frame calls), caller B (set/start/trigger/stop) and the camera's own streamer thread run as fibers; the schedule is "
+                "part of the generated case (walk mode: one choice per scheduling point; PCT mode: priorities with change points; fair tail). "
+                "Oracles: delivered hardware frame ids strictly increase within a run; the first id of a run shows that counting restarted; with the "
+                "frame trigger enabled deliveries never exceed the triggers issued in that run, first id < triggers, and in lock-step "
+                "(trigger, frame, trigger, frame ...) ids are exactly 0,1,2,...; stop returning and pending frame calls returning are decided by the "
+                "scheduler's deadlock detector, not by a timeout; no camera thread survives stop.",
+        "note": "Trusts the vsim model (sequential consistency, scheduling points at platform calls only: races between plain flag accesses inside "
+                "one basic block are not explored). Triggers are counted when the call starts. In runs where caller A makes frame calls, B does not, "
+                "so that B (the only one who triggers/stops) cannot starve itself.",
+        "technique": "property-based testing over generated schedules (deterministic scheduler, PCT/walk) with history invariants and deadlock detection",
+        "design_ref": "DESIGN.md section 3, harness simcam, C18",
+    },
     "C11": {
         "level": "exploration",
         "text": "Generated HAL call sequences on up to 3 cameras and 3 storages run against an in-process mock driver whose every response "
